@@ -11,7 +11,12 @@ PROP = dict(
     rule="one evaluation = one call of ConversionEngine::convert (all alternatives, first 20 compared in order, plus the raw "
          "k-shortest-path picks) on a generated dictionary x composition, recomputed from scratch by the model from the "
          "dictionary answers in the record; streams: valid (inside the quantifier: oracle failures are new), invalidsel "
-         "(F31, known; component tag convx, compared but outside the scope because outside the theorems' hypotheses), noword (outside the quantifier: F02 panic / F30 spelling must be predicted by the model), bigfreq "
+         "(F31, known; component tag convx, compared but outside the scope because outside the theorems' hypotheses), noword (a "
+         "syllable without a word or an ill-formed phrase: outside the quantifier of the one-character clause only; the oracle "
+         "evaluates what holds for every dictionary — a result (any panic of any engine is new), tiling, verbatim non-syllables, "
+         "selections kept whole, breaks not spanned, and the exact text shape: every interval text is made, across Glue gaps "
+         "only, of exact-range selections, dictionary phrases for the covered syllables and fallback pieces = exactly "
+         "Syllable::to_string() of one word-less unselected syllable; generator_stats noword.*), bigfreq "
          "(score overflow panics must be predicted). distinct = distinct record text. In addition (oracle only, no model records) "
          "seeded editor key histories (type syllables / symbols, move, delete, Tab, open list + choose, Esc, Enter; 3 engines; "
          "options varied): after every key Editor::intervals must tile Editor::len, one character per symbol, character symbols "
@@ -24,24 +29,36 @@ PROP = dict(
     assumptions=["CompValid: |symbols| = |gaps|, selections non-empty, in range, text length = range length, over syllables "
                  "only, no Break inside, pairwise non-intersecting (known finding F31: the public Composition API does not "
                  "enforce it; refutation proved)",
-                 "NoEmptyKey: the dictionary stores nothing under the empty key (F39)",
                  "WellFormed: every phrase has as many characters as its key has syllables (for the character-count theorems)",
-                 "HasWord: every syllable has a one-syllable word (the property's quantifier; F02/F30 outside it are modelled)",
+                 "HasWord: every syllable has a one-syllable word — the quantifier of the one-character clause ONLY "
+                 "(one_char_per_symbol, display_is_concat, provenance, selection_shown); NOT a premise of tiling or liveness: "
+                 "since the fix of F02/F03 all three engines show a word-less unselected syllable as its Bopomofo spelling "
+                 "(F30), and the exact statement without HasWord is proved (text_shape / one_char_or_spelling / "
+                 "provenance_general)",
+                 "ScoreBound (liveness only): at most 128 symbols, frequencies up to 2^23",
+                 "no premise on the empty key any more: find_best_phrase answers None for an empty range (F39 repaired at "
+                 "the engine; empty_key_harmless)",
                  "debug profile (overflow checks on), as the harness is built"],
 )
 
 MANIFEST = dict(
     text="Lean 4 theorems (Chewing/Props/C03.lean) over an executable model of src/conversion/{chewing,simple,fuzzy}.rs with an "
-         "abstract dictionary and a pick oracle for the one unspecified step (sort_unstable ties in find_k_paths): for every "
-         "oracle, dictionary, strategy and valid composition every alternative of every engine tiles 0..len (chain from 0, "
-         "contiguous, non-empty intervals, ends at len), has one character per symbol, shows non-syllable symbols verbatim at "
-         "their position, the display is the positional concatenation, every text has a dictionary / selection / glue "
-         "provenance; plus the conversion half of C04 (selection_shown, break_not_spanned); liveness: with a word per syllable a "
-         "result exists (no unwrap panic, BFS complete, loops finish within the model's fuel, scores inside i32 under ScoreBound) "
-         "and the fuel never runs out on any valid composition. Proved by induction over the code (BFS parent/closure "
-         "invariants, root++spur chains, glue fold invariant, sorted-partition lemma for the simple engine). Tie: "
-         "sampled correspondence on generated dictionaries x compositions x 3 engines with the oracle replaying the "
-         "implementation's picks. Known finding F31 (API admits invalid selections) refuted/excluded by hypothesis.",
+         "abstract dictionary and a pick oracle for the one unspecified step (sort_unstable ties in find_k_paths). For every "
+         "oracle, EVERY dictionary, strategy and valid composition: a result exists (nonempty_result: no unwrap panic — "
+         "find_best_phrase falls back to the spelling of a word-less syllable, F02/F03 repaired —, no index underflow on an "
+         "empty-key entry, F39 repaired, BFS complete, loops finish within the model's fuel, scores inside i32 under "
+         "ScoreBound), every alternative of every engine tiles 0..len (chain from 0, contiguous, non-empty intervals, ends at "
+         "len), shows non-syllable symbols verbatim as intervals of their own, spans no Break, keeps every selection inside one "
+         "interval, and every text has a dictionary / selection / spelling / glue provenance (provenance_general). The "
+         "one-character clause, exact (WellFormed dictionary): every interval text is one piece per symbol, each piece one "
+         "character or the spelling of a word-less unselected syllable (text_shape); an interval without a Glue gap inside has "
+         "length = range or is exactly that fallback interval (one_char_or_spelling); with a word per syllable (HasWord, the "
+         "property's quantifier) one character per symbol, the display is the positional concatenation, selections are shown "
+         "over their range (C04 half). F30 (the spelling is shown, 2-4 characters for one symbol) now concerns all three "
+         "engines and is inside the theorems. Proved by induction over the code (BFS parent/closure invariants, root++spur "
+         "chains, glue fold invariant, sorted-partition lemma for the simple engine). Tie: sampled correspondence on generated "
+         "dictionaries x compositions x 3 engines with the oracle replaying the implementation's picks. Known finding F31 "
+         "(API admits invalid selections) refuted/excluded by hypothesis.",
     note="Trusted: Lean kernel (axioms propext, Classical.choice, Quot.sound only), the harness, the compiled model driver, the "
          "add-only hook ChewingEngine::verif_k_paths, std sort semantics (stable sort_by; sort_unstable = some sorted permutation).",
     technique="Lean 4 proof (induction, loop invariants, fuel-sufficiency) over an executable model with abstract dictionary and "
